@@ -512,6 +512,11 @@ func (vt *Model) print(seq ansi.Print) {
 	default:
 		vt.cursor.col += column(w)
 	}
+	// A glyph wider than the screen can't move the cursor past the
+	// column after the last one
+	if vt.cursor.col > vt.margin.right+1 {
+		vt.cursor.col = vt.margin.right + 1
+	}
 	if vt.cursor.col >= vt.margin.right+1 && vt.mode.decawm {
 		vt.lastCol = true
 	}
